@@ -325,6 +325,11 @@ def generate(tier, seed, ctx):
         else:
             st("metro1", 50, [2, 2.0, thin, burn, -10.0, 10.0])
             st("metro2", 50, [2, 2.0, 3.0, thin, burn, -10.0, 10.0, -8.0, 8.0])
+    # support much smaller than the bounded domain: the chain starts where the target is exactly 0 (0/0 -> acceptance 1 in
+    # the C++: it random-walks on the plateau) and must have found the support after a long burn-in; then law of the target
+    for k in range(16 if th else 6):
+        st("metro1", 3000, [24, 0.3, 60, 20000, 0.0, 10.0])
+        st("metro1", 3000, [25, 0.3, 40, 20000, 0.0, 10.0])
     for pid, s1, s2, thin, burn, dom in [(20, 1.7, 3.4, 40, 200, []), (3, 1.0, 0.6, 40, 100, [-1.0, 1.0, 0.0, 1.0]), (0, 0.5, 1.0, 40, 50, [0.0, 1.0, 2.0, 4.0])]:
         st("metro2", M, [pid, s1, s2, thin, burn] + dom)
     return R
@@ -693,6 +698,13 @@ def cmp_stat(a, impl, ctx):
                 cdf = lambda x: (stats.laplace.cdf(x) - La) / (Lb - La)
             else:
                 cdf = stats.laplace.cdf
+        elif pid in (24, 25):
+            zero = (np.abs(v - 5.0) >= 1.0) if pid == 24 else ((v < 2.0) | (v > 3.0))
+            if np.any(zero):
+                out.append(fail("prop", "Sample_Metropolis: sample in a region of zero target density after burn-in",
+                                "%d of %d samples, e.g. x = %r (pdf %d, burn-in %d)" % (int(np.sum(zero)), n, float(v[zero][0]), pid, int(p[3]))))
+                return out
+            cdf = (lambda x: tri(x - 5.0)) if pid == 24 else (lambda x: np.clip(x - 2.0, 0.0, 1.0))
         elif pid == 6:       # density ∝ x on [lo,hi], lo >= 0
             cdf = lambda x: (x * x - dom[0] ** 2) / (dom[1] ** 2 - dom[0] ** 2)
         elif pid == 2:
